@@ -128,6 +128,37 @@ func init() {
 	reg(zz+"Or", func(c *CallCtx, a []Value) []Outcome { return ret1(Or(a[0].(*Term), a[1].(*Term))) })
 	reg(zz+"Implies", func(c *CallCtx, a []Value) []Outcome { return ret1(Implies(a[0].(*Term), a[1].(*Term))) })
 	reg(zz+"IsLowerASCII", func(c *CallCtx, a []Value) []Outcome { return ret1(isLowerT(a[0].(*Term))) })
+	reg(zz+"Arbitrary", func(c *CallCtx, a []Value) []Outcome {
+		iv := a[0].(*IfaceV)
+		p, ok := iv.V.(*Ptr)
+		if !ok || iv.T == nil {
+			throwf("Arbitrary of %s", showValue(iv))
+		}
+		et := iv.T.Underlying().(*types.Pointer).Elem()
+		tag := constStr(a[1], "tag")
+		shapes := c.E.freshOfType(c.S, et, tag+"."+shortType(et), 0)
+		var outs []Outcome
+		for _, sh := range shapes {
+			sh := sh
+			cond := sh.cond
+			// all top-level string fields pairwise distinct
+			if sv, ok := sh.val.(*StructV); ok {
+				var strs []*Term
+				for _, f := range sv.F {
+					if t, ok := f.(*Term); ok && t.Sort == SStr {
+						strs = append(strs, t)
+					}
+				}
+				for i := range strs {
+					for j := i + 1; j < len(strs); j++ {
+						cond = And(cond, Not(Eq(strs[i], strs[j])))
+					}
+				}
+			}
+			outs = append(outs, Outcome{Cond: cond, Do: func(st *State) { st.store(p, c.E.thaw(st, sh.val)) }})
+		}
+		return outs
+	})
 	reg(zz+"Deref", func(c *CallCtx, a []Value) []Outcome {
 		iv := a[0].(*IfaceV)
 		p, ok := iv.V.(*Ptr)
